@@ -118,6 +118,37 @@ type impStack struct {
 	// does when it starts; its cached ledger state is the row as it was at that moment
 	stale ledgercontroller.Controller
 	dead  bool
+	api   *httpAPI
+	nhttp int
+}
+
+var httpRoundTrips int
+
+// httpRoundTrip: export of l1 and import into a fresh ledger through the v2 endpoints (internal/api/v2/controllers_logs_*.go)
+func (s *impStack) httpRoundTrip(data []byte, copySnap Snap, f Feat) (viol []string) {
+	if s.nhttp > 0 {
+		return nil // once per case
+	}
+	s.nhttp++
+	httpRoundTrips++
+	if s.api == nil {
+		s.api = newHTTPAPI(s.st)
+	}
+	resp := s.api.do("POST", "/v2/l1/logs/export", nil, "")
+	if resp.Code != 200 || !bytes.Equal(resp.Body, data) {
+		return []string{fmt.Sprintf("POST /v2/l1/logs/export answered %d with a body that differs from the controller's export stream [c11-http-export]: %s / %s", resp.Code, diffAt(string(resp.Body), string(data)), diffAt(string(data), string(resp.Body)))}
+	}
+	must(s.st.Sys.CreateLedger(s.ctx, "l3", ledger.Configuration{Bucket: "_default", Features: f.set()}))
+	imp := s.api.do("POST", "/v2/l3/logs/import", map[string]string{"Content-Type": "application/octet-stream"}, string(resp.Body))
+	if imp.Code != 204 {
+		return []string{fmt.Sprintf("POST /v2/l3/logs/import of the exported stream into a pristine ledger answered %d %s [c11-http-import]", imp.Code, short(imp.Body))}
+	}
+	ctrl, err := s.st.Sys.GetLedgerController(s.ctx, "l3")
+	must(err)
+	if hs := s.st.Snapshot(s.ctx, ctrl, "l3", f); hs.sx() != copySnap.sx() {
+		return []string{fmt.Sprintf("the ledger imported through POST /logs/import differs from the one imported through the controller [c11-http-import-differs]: %s / %s", diffAt(hs.sx(), copySnap.sx()), diffAt(copySnap.sx(), hs.sx()))}
+	}
+	return nil
 }
 
 // facadeBeginsTX: does the state tracker facade of the tree under test run the handleState protocol in BeginTX
@@ -595,6 +626,11 @@ func (s *impStack) script(run *impRun, logs []ledger.Log) *impRun {
 							maxTx = t.ID
 						}
 					}
+					// the same round trip through the HTTP API: POST /logs/export answers the controller's stream byte for byte, and that
+					// body sent to POST /logs/import of a third, pristine ledger gives the state the controller-level import gave
+					for _, v := range s.httpRoundTrip(run.Data, after, c.Feat) {
+						run.Viol = append(run.Viol, "C11|"+v)
+					}
 					for _, d := range refineDiff(run.SnapA, after, diff) {
 						run.Viol = append(run.Viol, "C11|copy differs from source after export/import into the pristine ledger: ["+"c11-"+d+"] "+impFirstDiff(run.SnapA, after, d))
 					}
@@ -854,6 +890,7 @@ func cmdImportx(args []string) int {
 		cs := run.Case.sx()
 		out.Case(cs, run.implSx())
 		out.Stats["cases"]++
+		out.Stats["http_export_import_round_trips"] = httpRoundTrips
 		out.Stats["exported_logs"] += run.Exported
 		out.Stats["partial_imports_of_non_exports"] += run.Partial
 		out.Stats["imports_stopped_by_reference_reuse"] += run.RefReuse
